@@ -59,10 +59,13 @@ var pinned = []string{
 	`{"driver":"callable","frames":[{"js":true,"h":"swallow","via":"closefrom"},{"js":true,"h":"fin"},{"js":false,"e":"fc","leaf":{"kind":"interrupt"}}]}`,
 	`{"driver":"run","frames":[{"js":true,"h":"swallow+fin","via":"closeforof"},{"js":true,"leaf":{"kind":"overflow"}}]}`,
 	`{"driver":"run","frames":[{"js":true,"h":"fin","via":"closedestruct"},{"js":true,"h":"rethrow","leaf":{"kind":"overflow"}}]}`,
-	// KF C14-iterate-foreign-panic (inbox/C14-iterate-foreign-panic.md): built-ins consuming an iterable swallow a foreign Go
-	// panic raised inside return(), and run return() while a foreign panic from the step unwinds
+	// fixed (inbox/applied/C14-iterate-foreign-panic.md): built-ins consuming an iterable swallowed a foreign Go panic raised
+	// inside return(), and ran return() while a foreign panic from the step unwound
 	`{"driver":"run","frames":[{"js":true,"via":"closemap"},{"js":true},{"js":false,"e":"fc","leaf":{"kind":"foreign","expr":"str"}}]}`,
 	`{"driver":"run","frames":[{"js":true,"via":"frommap"},{"js":true},{"js":false,"e":"fc","leaf":{"kind":"foreign","expr":"int"}}]}`,
+	// seeded mutation C14-yieldstar-stack: a non-Error value thrown through yield* keeps its throw-site stack
+	`{"driver":"run","frames":[{"js":true,"via":"ynext"},{"js":true,"leaf":{"kind":"throw","expr":"obj"}}]}`,
+	`{"driver":"run","frames":[{"js":true,"h":"fin","via":"ynest"},{"js":true},{"js":false,"e":"fc","leaf":{"kind":"panic","expr":"obj"}}]}`,
 	// regression: wrapped and joined Go errors through a wrapping intermediary; typed-nil error
 	`{"driver":"callable","frames":[{"js":true,"h":"swallow+fin"},{"js":false,"e":"method","x":"callable","b":"wraperr"},{"js":true,"h":"rethrow"},{"js":false,"e":"reflerr","leaf":{"kind":"reterr","expr":"join"}}]}`,
 	`{"driver":"callable","frames":[{"js":true,"h":"rethrow"},{"js":false,"e":"reflerr1","leaf":{"kind":"reterr","expr":"typednil"}}]}`,
@@ -116,32 +119,9 @@ func pickWS(r *core.Rng, xs []string, w []int) string { return xs[r.PickW(w)] }
 
 var handlerW = []int{34, 10, 8, 8, 8, 7, 6, 6, 6, 7}
 
-// kfIterateWitness is the pinned witness of the listed finding C14-iterate-foreign-panic. While it still fails, the
-// minimal syntactic neighbourhood of the finding is kept out of random generation (see excluded); once the fix is
-// merged the witness holds and the exclusion lifts by itself.
-const kfIterateWitness = `{"driver":"run","frames":[{"js":true,"via":"closemap"},{"js":true},{"js":false,"e":"fc","leaf":{"kind":"foreign","expr":"str"}}]}`
-
-var (
-	kfOnce    sync.Once
-	kfIterate bool
-)
-
-// excluded is the syntactic neighbourhood of listed known findings, kept out of random generation:
-// C14-iterate-foreign-panic — chains that end in a foreign Go panic and pass a built-in that consumes an iterable
-// natively (links closemap, closefrom, frommap).
-func excluded(c *c14ref.Chain) bool {
-	kfOnce.Do(func() { kfIterate = runChain(parseChain(kfIterateWitness), false).monitor != "" })
-	if !kfIterate || c.Frames[len(c.Frames)-1].Leaf.Kind != "foreign" {
-		return false
-	}
-	for i := range c.Frames {
-		switch c.Frames[i].Via {
-		case "closemap", "closefrom", "frommap":
-			return true
-		}
-	}
-	return false
-}
+// excluded is the syntactic neighbourhood of listed known findings, kept out of random generation. Nothing is listed at
+// present (known-findings.d/C14.json has no open finding), so nothing is excluded.
+func excluded(c *c14ref.Chain) bool { return false }
 
 func genOnce(r *core.Rng) *c14ref.Chain {
 	n := 1 + r.PickW([]int{3, 9, 16, 18, 16, 14, 13, 11})
@@ -163,7 +143,7 @@ func genOnce(r *core.Rng) *c14ref.Chain {
 				f.Rep = pickS(r, c14ref.JSKinds)
 			}
 			if !last && c.Frames[i+1].JS {
-				f.Via = pickWS(r, c14ref.Vias, []int{14, 6, 7, 6, 8, 8, 9, 8, 9, 7, 6, 12, 7, 6, 7, 6, 6, 6, 5})
+				f.Via = pickWS(r, c14ref.Vias, []int{14, 6, 7, 6, 8, 8, 9, 8, 9, 7, 6, 12, 7, 6, 7, 6, 6, 6, 5, 7, 8, 8, 6, 6})
 				if f.Via == "promise" {
 					if promise {
 						f.Via = "call"
